@@ -123,7 +123,7 @@ def enc_cases(draw, tier, generated):
     # absent markers: must not set a bit
     unused = [b for b in config if 'DE' + b not in msg and config[b].get('field_processor') != 'PDS']
     for b in draw(st.lists(st.sampled_from(unused), max_size=3, unique=True)) if unused else []:
-        msg['DE' + b] = draw(st.sampled_from(['', None]))
+        msg['DE' + b] = draw(st.sampled_from(['', None, b'']))       # an empty binary value is as empty as an empty text
     return config, codec, hexbm, msg, generated
 
 
